@@ -25,6 +25,9 @@ _scratch_pid = None
 def _new_scratch():
     global _scratch, _scratch_pid
     base = '/dev/shm' if os.path.isdir('/dev/shm') and os.access('/dev/shm', os.W_OK) else None
+    root = os.environ.get('VERIF_SCRATCH_ROOT')          # (set by the engine's main process, which removes the whole tree when the run ends:
+    if root and os.path.isdir(root):                     #  exit handlers of forked pool workers do not run)
+        base = root
     _scratch = tempfile.mkdtemp(prefix='verif-mc-', dir=base)
     _scratch_pid = os.getpid()
     import atexit
